@@ -448,55 +448,6 @@ def rule_validation_dominates(ctx, ix):
             ctx.ok("C09.validation", key)
         else:
             ctx.fail("C09.validation", key, "the permutation requirement is not checked at the top level of the function before anything is built")
-    # taco_structure_to_cffi validation clauses (templates; local names are metavariables)
-    from .core import tsolve
-
-    fn = ix.func("tensora.compile._cffi_ownership.taco_structure_to_cffi").node
-    loop, lv, dense, comp = _level_walk(fn)
-    bind = None
-    if loop is not None and dense is not None and comp is not None:
-        r = tsolve(comp, ["_V_pos = indices[_V_lv][0]", "_V_crd = indices[_V_lv][1]", "_V_nnz = len(_V_crd)"], {"_V_lv": lv})
-        bind = r[0] if r else None
-    clauses = {
-        "pos length": (comp, "len(_V_pos) != _V_nnz + 1"),
-        "pos[0] == 0": (comp, "_V_pos[0] != 0"),
-        "pos non-decreasing": (comp, "not weakly_increasing(_V_pos)"),
-        "crd length": (comp, "len(_V_crd) != _V_pos[-1]"),
-        "crd range": (comp, "not all((0 <= _V_x < dimensions[mode_ordering[_V_lv]] for _V_x in _V_crd))"),
-        "vals length": ([fn], "len(vals) != _V_nnz"),
-        "dense level empty": (dense, "len(indices[_V_lv]) != 0"),
-    }
-    for name, (scope, test) in clauses.items():
-        ctx.instance("C09.validation")
-        key = f"compile/_cffi_ownership.py:taco_structure_to_cffi:{name}"
-        if bind is None:
-            ctx.fail("C09.validation", key, "the level walk with `pos = indices[level][0]; crd = indices[level][1]; positions = len(crd)` was not found")
-            continue
-        found = False
-        bb = _if_raises(scope, test, bind)
-        if bb is not None:
-            # the clause must be unconditional within its arm: the if sits directly in the arm / function body
-            from .core import _pat, tmatch
-
-            for st in scope if scope is not None else []:
-                tops = st.body if isinstance(st, ast.FunctionDef) else [st]
-                for top in tops:
-                    if isinstance(top, ast.If) and any(isinstance(x, ast.Raise) for x in top.body) and tmatch(_pat(test), top.test, dict(bind)):
-                        found = True
-        if found:
-            ctx.ok("C09.validation", key)
-        elif bb is not None:
-            ctx.fail("C09.validation", key, f"validation clause `{test}` -> raise is only applied conditionally (nested under another statement)")
-        else:
-            ctx.fail("C09.validation", key, f"validation clause `{test}` -> raise is missing")
-    # ... and the validation precedes the construction of the arrays
-    ctx.instance("C09.validation")
-    news = [n for n in ast.walk(fn) if isinstance(n, ast.Call) and u(n.func) == "tensor_cdefs.new" and ("array" in u(n) or "vals" in u(n))]
-    raises = [n for n in ast.walk(fn) if isinstance(n, ast.Raise)]
-    if news and raises and max(r.lineno for r in raises) < min(n.lineno for n in news):
-        ctx.ok("C09.validation", "compile/_cffi_ownership.py:taco_structure_to_cffi:validation precedes array construction")
-    else:
-        ctx.fail("C09.validation", "compile/_cffi_ownership.py:taco_structure_to_cffi:validation precedes array construction", "arrays are built before all validation clauses ran")
 
 
 # ------------------------------------------------------------------------------------------------
